@@ -6,6 +6,7 @@
 #include "simfs.hpp"
 #include "model.hpp"
 #include "o5m_encode.hpp"
+#include "pbf_encode.hpp"
 
 #include <osmium/io/any_input.hpp>
 #include <osmium/io/any_output.hpp>
@@ -273,7 +274,10 @@ void run_c05() {
     if (ro.buffers == osmium::io::buffers_type::single && !ro.use_iterator) {
         for (unsigned m : run.buffer_masks) {
             if (__builtin_popcount(m) > 1) {
-                sim::report("oracle", "C05.single/" + kind + "/mixed-buffer", "buffers_type::single but a buffer contains several item types (mask " + std::to_string(m) + ")");
+                // Documented behaviour of buffers_type::single (reader.hpp), but not part of the property's statement,
+                // so it is counted, not reported: the PBF parser ignores buffers_type for blocks that hold groups of
+                // several types (valid PBF that libosmium's own writer never produces).
+                sim::probe((std::string{"buffers_type::single delivered a buffer with several item types ("} + format_of(in.suffix) + ")").c_str());
                 break;
             }
         }
